@@ -182,9 +182,10 @@ class EventManager(Runnable):
             self.backoff()
         except CloudCursorError as e:
             log.exception("Cursor error... resetting cursor. %s", e)
+            self.need_walk = True
+            self._forget_walk_marker()
             self.provider.current_cursor = self.provider.latest_cursor
             self._save_current_cursor()
-            self.need_walk = True
             self.backoff()
         except CloudTokenError:
             # this is separated from the main block because
@@ -206,11 +207,19 @@ class EventManager(Runnable):
             self.state.storage_update_data(self._walk_tag, time.time())
             self.need_walk = False
 
+    def _forget_walk_marker(self):
+        # A fresh cursor is about to be persisted while a walk is still owed.  The cursor alone would make a
+        # restarted event manager believe nothing was missed, so the walk obligation has to be durable too.
+        if self._walk_tag is not None:
+            self.state.storage_delete_tag(self._walk_tag)
+
     def _do_first_init(self):
         if self._first_do:
             if self.cursor is None:
                 self.cursor = self.provider.current_cursor
                 if self.cursor is not None:
+                    if self.need_walk:
+                        self._forget_walk_marker()
                     self.state.storage_update_data(self._cursor_tag, self.cursor)
             else:
                 log.debug("retrieved existing cursor %s for %s", self.cursor, self.provider.name)
